@@ -10,7 +10,7 @@ CLAIMED = {
         "Explicit-state exploration of the real SolarDay/JulianDay code in lock-step with a day-counting odometer of the civil calendar: "
         "all 3,652,061 dates x 100 step sizes (every n in 1..40 and the month/year/century sized ones, both signs) x every observer (to/from day count at 3 fractions, next, subtract, order, day-of-year) and all "
         "4.6M candidate (year,month,day) triples for acceptance, plus year/month lengths and leap flags of every year. The space is finite and is "
-        "enumerated completely in both tiers, so any constant/threshold/leap-rule slip that changes one date is seen. SolarYear::new / SolarMonth::new are accepted exactly for years 1..9999 and months 1..12.",
+        "enumerated completely in both tiers, so any constant/threshold/leap-rule slip that changes one date is seen. SolarYear::new / SolarMonth::new are accepted exactly for years 1..9999 and months 1..12. Dates handed out in lists (every week of every month x 7 week starts: count and the seven days) and dates reached by stepping a time of day by +-n seconds over midnight (5 clocks x 24 steps) are compared with the same odometer.",
         "Trusted: the odometer reference model (cross-checked at start-up against integer closed-form JDN formulas) and f64 determinism on one machine. Steps whose result leaves 0001..9999 are outside the claim.",
         "explicit-state enumeration of all dates x step alphabet against a civil-calendar odometer model",
         "DESIGN.md 2/C01"),
